@@ -17,6 +17,7 @@ Case = {
 Scores are compared as IEEE bit patterns; nothing is printed in decimal.
 """
 import copy
+import random
 import struct
 from fractions import Fraction
 
@@ -273,8 +274,21 @@ def gen_case(rng, pid, tier):
         for k in range(rng.randint(0, 2)):
             drops.append([90000 + k, rng.randint(0, 7), rng.randint(0, 100), [rng.randint(0, 5) for _ in range(3)],
                           rng.randint(0, 7) if rng.random() < 0.5 else None])
+    # (side stream) some servers are down or frozen when the queue is computed: the size of a partition - what the
+    # utilisation of an allocation is measured against - is the declared capacity of its servers, whatever their state
+    r_st = random.Random(repr(rng.getstate()[1][:4]) + 'server-states')
+    states = {}
+
+    def names_of(nd):
+        if nd[0] == 'S':
+            return [nd[1]]
+        return [n_ for c_ in nd[2] for n_ in names_of(c_)]
+    if r_st.random() < 0.3:
+        for n_ in names_of(cell):
+            if r_st.random() < 0.4:
+                states[n_] = r_st.choice(['down', 'frozen'])
     return {'cell': cell, 'rm': rm, 'tree': tree, 'free': free, 'asg': _gen_asg(rng, malformed),
-            'moves': moves, 'drops': drops}
+            'moves': moves, 'drops': drops, 'states': states}
 
 
 # ---- shrinking: the ops are the instances --------------------------------------------------------
@@ -532,6 +546,10 @@ def _run_queue(case, run, sch, np, clock):
         s = servers.pop(name, None)
         if s is not None and s.parent is not None:
             s.parent.remove_node(s)
+    for name, st_ in sorted((case.get('states') or {}).items()):
+        if name in servers:
+            servers[name].set_state(sch.State(st_), 0)
+            run.tags.add('server-not-up')
     size = cell.size('p')
     run.op(_cell_line(cell, 'p'), 'size=%d,%d,%d' % tuple(bits(x) for x in size))
 
